@@ -93,6 +93,22 @@ def run(ctx):
             if back != inp:
                 ctx.violation("accepted input does not re-encode to the same bytes (two encodings of one element)",
                               {"case": l, "impl": o})
+    # the untrusted decoders are functions of their input: the same strings after the TRUSTED decoders
+    # (SetBytesUnsafe, SetBytesUncompressed(trusted)) have seen them, in one process, in this order
+    hl, hc = [], []
+    for _ in range(ctx.n(40, 2000)):
+        for c, x in classes_of_x(rng).items():
+            y = E.y_from_x(x)
+            xb = x.to_bytes(32, "big")
+            seq = [("x", xb), ("c", xb), ("r", xb), ("x", xb), ("c", xb)]
+            if y is not None:
+                for yy in (y, (-y) % P):
+                    ub = xb + yy.to_bytes(32, "big")
+                    seq += [("t", ub), ("u", ub), ("t", ub), ("u", ub), ("c", xb)]
+            for kind, b in seq:
+                hl.append("dec %s %s" % (kind, E.hx(b)))
+                hc.append("history:" + c + ":" + kind)
+    diff(ctx, hl, "decoding after trusted decoding of the same bytes (one process)", hc, shards=1, impl_shards=1)
     ctx.extra["accepted_inputs"] = acc
     ctx.extra["rejected_inputs"] = len(lines) - acc
 
